@@ -509,7 +509,7 @@ Section Progress.
 
   Lemma ni_complete_line fuel : ni (complete_line U cfg fuel).
   Proof.
-    unfold complete_line. disp.
+    unfold complete_line, list_span_step. disp.
     ni_all; try apply ni_complete_circular; try apply ni_next_cmd; try apply ni_wait_yn; try apply ni_page.
   Qed.
   Ltac ni_known ::=
@@ -527,7 +527,7 @@ Section Progress.
 
   Lemma nfb_complete_line fuel : nfb fuel (complete_line U cfg fuel).
   Proof.
-    unfold complete_line. disp.
+    unfold complete_line, list_span_step. disp.
     nfb_all ltac:(first [ (apply (nfb_mono (S fuel)); [apply nfb_next_cmd|lia])
                         | apply nfb_complete_circular | apply nfb_wait_yn | (apply nfb_of_nf, nf_page) ]).
   Qed.
